@@ -225,3 +225,8 @@ pub broadcast axiom fn axiom_trim_start_char(s: Seq<char>, c: char, r: Seq<char>
     requires #[trigger] trim_start_ens::<char>(s, c, r), ensures r == strip_leading(s, c);
 pub broadcast axiom fn axiom_to_string_string(x: &String, r: String)
     requires #[trigger] vstd::string::to_string_from_display_ensures::<String>(x, r), ensures r == *x;
+// Vec::dedup removes consecutive repeats: never longer, every kept element was there
+pub assume_specification<T: PartialEq, A: std::alloc::Allocator>[ Vec::<T, A>::dedup ](v: &mut Vec<T, A>)
+    ensures
+        final(v)@.len() <= old(v)@.len(),
+        forall|i: int| 0 <= i < final(v)@.len() ==> old(v)@.contains(#[trigger] final(v)@[i]);
